@@ -307,7 +307,7 @@ fn pick_op(r: &mut Rng, w: &Weights, m: &BehMix, src: bool) -> Op {
 }
 
 fn small_cap(r: &mut Rng) -> usize {
-    let caps: [usize; 18] = [0, 1, 1, 2, 2, 3, 3, 4, 5, 8, 8, 16, 31, 32, 33, 64, 100, 200];
+    let caps: [usize; 21] = [0, 1, 1, 2, 2, 3, 3, 4, 5, 8, 8, 16, 31, 32, 33, 64, 100, 200, 255, 300, 1000];
     r.pick(&caps)
 }
 
@@ -473,7 +473,7 @@ pub fn generate(workload: Workload, subject: SubjectKind, seed: u64) -> (Config,
                 m.p_selfinf = 0;
                 m.p_self1 = r.pick(&[0u64, 10]);
             }
-            let n = r.range(55, 140) as usize;
+            let n = if r.chance(1, 8) { r.range(140, 320) } else { r.range(55, 140) } as usize;
             match class {
                 Class::Collection | Class::Merge => {
                     cfg.cap = cfg.cap.max(n + r.below(8) as usize);
@@ -518,7 +518,7 @@ pub fn generate(workload: Workload, subject: SubjectKind, seed: u64) -> (Config,
             let mut pushed = 0usize;
             if cfg.ctor == Ctor::New {
                 // default first group is 32 wide: start by filling past a boundary or two
-                let n = r.pick(&[30u64, 33, 40, 64, 97, 100, 130]) as usize;
+                let n = r.pick(&[30u64, 33, 40, 64, 97, 100, 130, 130, 225, 230, 300, 500]) as usize;
                 for _ in 0..n {
                     trace.push(Op::Push {
                         beh: gen_beh(r, &m, src),
